@@ -206,6 +206,10 @@ func c19Run(c *Ctx, cs c19Case, count bool) {
 		cd := stackage.Cond("kw", stackage.Eq, target)
 		recv = stackage.And().Push(stackage.List().Push("z"), cd)
 		parentWant = contents(recv)
+	case "in-cond-only": // no sibling Stack: the parent is not "nesting" by IsNesting's definition
+		cd := stackage.Cond("kw", stackage.Eq, target)
+		recv = stackage.And().Push("p0", cd)
+		parentWant = contents(recv)
 	case "in-cond-alias":
 		cd := CondAlias(stackage.Cond("kw", stackage.Eq, StackAlias(target)))
 		recv = stackage.And().Push(stackage.List().Push("z"), cd, sibling)
@@ -328,7 +332,7 @@ func c19Cases(c *Ctx) []c19Case {
 					out = append(out, c19Case{n, mask, lim, opt.neg, opt.fwd, "top", "LIST"})
 				}
 				if n <= nestLen && (lim == 0 || lim == 3) {
-					for _, pl := range []string{"in-stack", "alias", "ptr-alias", "in-cond", "in-cond-alias", "deep"} {
+					for _, pl := range []string{"in-stack", "alias", "ptr-alias", "in-cond", "in-cond-only", "in-cond-alias", "deep"} {
 						out = append(out, c19Case{n, mask, lim, false, false, pl, "AND"})
 					}
 				}
